@@ -702,6 +702,10 @@ func cmdGen(args []string) {
 			cfg.Skeleton = true
 		case "nestedlists":
 			cfg.NestedLists = true
+		case "wide":
+			cfg.Wide = true
+		case "varid":
+			cfg.VarID = true
 		case "chain":
 			cfg.Chain = true
 			cfg.Mutations = false
